@@ -41,8 +41,22 @@ def _norm_rgb(x):
     return tuple(int(v) for v in x)
 
 
+def _with_history(case):
+    """every third case (chosen by a checksum of the case, so reproducibly) is evaluated after an earlier call for the same pair
+    with other settings — the properties quantify over every call, whatever came before it (a result kept from an earlier call
+    under a key that forgets one of the settings shows up here, in the check of the property it breaks)"""
+    import zlib
+    return zlib.crc32(repr(case).encode()) % 3 == 0
+
+
 def w_caf(case):
     t, b, large, mode, very = case
+    if _with_history(case):
+        try:
+            _impl["opt"].check_and_fix_contrast(tuple(t), tuple(b), bool(large), (mode + 1) % 3, not bool(very))
+            _impl["opt"].check_and_fix_contrast(tuple(t), tuple(b), not bool(large), mode, bool(very))
+        except Exception:  # noqa
+            pass
     try:
         r, ok = _impl["opt"].check_and_fix_contrast(tuple(t), tuple(b), bool(large), mode, bool(very))
         return (_norm_rgb(r), bool(ok))
@@ -102,6 +116,15 @@ def w_api(case):
             return out
         out["t"] = tuple(pair.text.rgb)
         out["b"] = tuple(pair.bg.rgb)
+        if _with_history(case):
+            # the same pair object, asked first with the other settings (and the same pair at the other text size)
+            out["history"] = True
+            try:
+                pair.make_readable(mode=(mode + 1) % 3, very_readable=not bool(very))
+                pair.make_readable(mode=mode, very_readable=not bool(very))
+                colors.ColorPair(text_sp, bg_sp, not bool(large)).make_readable(mode=mode, very_readable=bool(very))
+            except Exception:  # noqa
+                pass
         res, ok = pair.make_readable(mode=mode, very_readable=bool(very))
         out["out"] = res if not isinstance(res, (tuple, list)) else tuple(res)
         out["out_type"] = type(res).__name__
